@@ -16,7 +16,7 @@ out = dict(property=p, breaks=meta.get("summary"), files=meta.get("files"), need
            confirmed_by_me=dict(demo_exit_on_original=conf["demo_rc_original"], demo_exit_with_change=conf["demo_rc_changed"],
                                 suite_passed_with_change=conf["suite_passed"], baseline_tests_missing=conf["baseline_missing"],
                                 how="tools_seed_confirm.sh in the sub-agent's scratch worktree (PYTHONPATH = that worktree): demo with the change, demo with the change reverted, full pinned suite with the change applied, pass-set compared with BASELINE.json stable_pass"),
-           check_result=res, author="independent sub-agent (rounds 3-9) given only the property text with its mechanism list, a preferred area, and a scratch worktree")
+           check_result=res, author="independent sub-agent (rounds 3-10) given only the property text with its mechanism list, a preferred area, and a scratch worktree")
 json.dump(out, open('/verif/seeded/%s/meta.json' % name, 'w'), indent=1)
 PY
 ls $D
